@@ -355,12 +355,6 @@ func main() {
 				r.Violation(v.Key, v.What, v.Case)
 			}
 			r.WatchDone(w)
-			if al.viaFile {
-				for _, v := range checkParseFile(scratch, w, s) {
-					r.Violation(v.Key, v.What, v.Case)
-				}
-				atomic.AddInt64(&viaFile, 1)
-			}
 			if n%509 == 0 && len(s) > 2 {
 				for _, v := range checkSequence(s, append([]byte("-- z --\nqq\n"), s[2:]...)) {
 					r.Violation(v.Key, v.What, v.Case)
@@ -372,6 +366,25 @@ func main() {
 		})
 		_ = crlf
 		bounds = append(bounds, fmt.Sprintf("alphabet %s: all strings of length <= %d", al.name, al.max))
+	}
+	// the same through ParseFile: every string of up to 5 tokens of the alphabet of
+	// whole marker pieces, one file each (the bound does not grow with the tier:
+	// a file per input is slow)
+	for _, al := range alphas {
+		if !al.viaFile {
+			continue
+		}
+		enum.Strings(al.toks, 5, r.Workers(), func(w int, s []byte) {
+			if r.Capped() {
+				return
+			}
+			r.Watch(w, s)
+			for _, v := range checkParseFile(scratch, w, s) {
+				r.Violation(v.Key, v.What, v.Case)
+			}
+			r.WatchDone(w)
+			atomic.AddInt64(&viaFile, 1)
+		})
 	}
 	// well-formed archives
 	names := []string{"a", "a b", "-- x --", "é/ü"}
@@ -404,7 +417,7 @@ func main() {
 	}
 	r.Set("evaluations", evals+archives)
 	r.Set("distinct_nontrivial", nontrivial+archives)
-	r.Set("rule", "every token string over each alphabet up to the stated length, each visited once (distinct by construction); non-trivial = contains \"-- \" at a line start; plus every archive of <=2 files from the well-formed generator; the strings of the third alphabet are also written to a file and read through ParseFile")
+	r.Set("rule", "every token string over each alphabet up to the stated length, each visited once (distinct by construction); non-trivial = contains \"-- \" at a line start; plus every archive of <=2 files from the well-formed generator; the strings of up to 5 tokens of the third alphabet are also written to a file and read through ParseFile")
 	r.Set("bounds", bounds)
 	r.Set("byte_strings", evals)
 	r.Set("wellformed_archives", archives)
